@@ -308,6 +308,12 @@ impl Ctx {
             self.logline(&format!("BEGIN {} {}", sub, idx));
             self.rep.evaluations += 1;
             case_begin(&format!("{}/{}", sub, idx));
+            // one case in three: unrelated objects render on this thread first (see pollute.rs)
+            // (about a hundred times per sub-workload and shard where cases are cheap and many)
+            let every = (n / self.nshards.max(1) / 100).max(3);
+            if (idx / self.nshards) % every == 1 {
+                crate::pollute::other_objects_render(&self.repo, idx as u64);
+            }
             let r = guard(|| f(self, &mut rng, idx));
             case_end();
             if let Err(p) = r {
